@@ -80,6 +80,10 @@ def describe(a, b):
     return f"{head}: history {a[:120]} vs fresh {b[:120]}"
 
 
+# deep tables whose content may legitimately differ (none known)
+DEEP_TOLERATED = set()
+
+
 class Policy:
     def __init__(self, a):
         pol = a["pol"]
@@ -173,6 +177,12 @@ def compare_case(ctx, exe, pol, case):
                 res["black"].append(describe(x, y))
         elif t == "R":
             res["black"].append(f"result code: history `{x}` vs fresh `{y}`")
+        elif t == "D":
+            tab = x.split(" ")[2]
+            if tab in DEEP_TOLERATED:
+                tol["deep:" + tab] = tol.get("deep:" + tab, 0) + 1
+            else:
+                res["white"].append(f"{x.split(' ')[1]} deep:{tab}: table reachable from the engine differs (history {' '.join(x.split(' ')[3:5])} vs fresh {' '.join(y.split(' ')[3:5])})")
         elif t == "E":
             path = x.split(" ")[2]
             if pol.member_tolerated(path):
